@@ -6,6 +6,7 @@ import CalicoVerif.Gen.C13
   `sizeatmost <ver> <struct> <n>`                → `ok` | `too-big:<sizeof>`
   `off <ver> <struct> <path>`                    → `<bit offset> <bit size>`
   `within <ver> <struct> <path> <bitoff> <bits>` → `ok` | `no:<bit offset> <bit size>`
+  `inside <ver> <struct> <path> <bitoff> <bits>` → `ok` | `no:<bit offset> <bit size>`
   `enc <ver> <struct> <path>=le:<n>|num:<n>|raw:<hex> …` → hex of the structure with the values at the C
                                                     offsets (`num`: byte order from the C declared type,
                                                     big-endian for `__be16/32/64`, else little-endian)
@@ -82,6 +83,10 @@ def step (u : Unit) (line : String) : Unit × String :=
   | ["within", v, st, path, o', n'] =>
     match (structsOf v).bind (fun ss => findPath ss st path), o'.toNat?, n'.toNat? with
     | some (o, n), some a, some b => (u, if o == a && b ≤ n then "ok" else s!"no:{o} {n}")
+    | _, _, _ => (u, "bad-op")
+  | ["inside", v, st, path, o', n'] =>
+    match (structsOf v).bind (fun ss => findPath ss st path), o'.toNat?, n'.toNat? with
+    | some (o, n), some a, some b => (u, if o ≤ a && a + b ≤ o + n then "ok" else s!"no:{o} {n}")
     | _, _, _ => (u, "bad-op")
   | "enc" :: v :: st :: fields =>
     match structsOf v with
